@@ -100,6 +100,9 @@ def run(env, rep):
     table = G.boundary_table()
     scripts += table
     scripts += [G.random_script(env.rng, i) for i in range(env.scale(1200, 30000))]
+    # every fourth script again with a resource that keeps its renderings and hands the same object to every observer
+    # it notifies of a state (the model works on values; the implementation has to make them so)
+    scripts += [dict(s, cached_render=True, tag="cached:" + s.get("tag", "")) for i, s in enumerate(scripts) if i % 4 == 3]
     results = run_scripts(env, scripts)
     lines, cases, impl, fails = [], [], [], []
     for res in results:
